@@ -799,4 +799,5 @@ def run(tier):
     chk.floor('tables', sum(1 for o in chk.obls if o['rule'] == 'hash-constants'), 15)
     from .. import lints
     lints.length_is_boolean(chk, ['src/hash/', 'src/mac/', 'src/kdf/', 'src/rand/'])
+    lints.tail_copy_from_running_pointer(chk, ('src/hash/', 'src/mac/', 'src/kdf/', 'src/rand/'))
     return chk.finish()
